@@ -183,6 +183,10 @@ def replace_subgroups(
             new_value = field_value
 
         replace_kwargs[field.name] = new_value
+    if selections:
+        raise ValueError(
+            f"Selections {list(selections)} do not name fields of {type(obj).__name__}."
+        )
     return dataclasses.replace(obj, **replace_kwargs)
 
 
